@@ -397,6 +397,18 @@ func c16Oracle(c *mc.Ctx, cs c16Case, out c16Out, viol func(clause, desc string)
 			return false
 		}
 		if r.Removed {
+			// a sequence holding the supplied reference verbatim, once, on an allowed strand aligns with it
+			// over its whole length without a mismatch: no cut-off on length or match rate can discard it
+			if cs.Orf != "" {
+				n, nrc := c16CountOverlapping(in, cs.Orf), 0
+				if cs.Reverse {
+					nrc = c16CountOverlapping(c08RevComp(in), cs.Orf)
+				}
+				if n+nrc == 1 {
+					viol("verbatim-orf-removed", fmt.Sprintf("sequence %d %q embeds the reference ORF verbatim but is flagged Removed (discarded by the cut-offs)", i, in))
+					return false
+				}
+			}
 			c.Outcome("phase:removed")
 			continue
 		}
